@@ -90,13 +90,15 @@ def run_threads(params, ch):
 def run_failed_overlap(params, ch):
     """One open is refused by the device (CLSE instead of OKAY) and fails while another open overlaps it; a third open follows.
     The ids of the two streams that stay live must differ, whatever the interleaving."""
-    key = ('overlap', 2)
+    key = ('overlap', 2, bool(params.get('late')))
     if key not in _WARM:
         _WARM.add(key)
         from ..chooser import FixedChooser
         run_failed_overlap(params, FixedChooser())
     cfg = dict(CFG)
     cfg['reject_open'] = [b'shell:reject']
+    if params.get('late'):
+        cfg['reject_delays'] = (0.2, 0.35)       # the second (duplicate) refusal arrives after the read timeout: the open fails on the library's own deadline
     s = Session(ch, cfg, twin='sync', lock_factory=SchedLock, max_calls=5000)
     try:
         if s.op(('connect',)) != ('ok', True):
@@ -107,7 +109,8 @@ def run_failed_overlap(params, ch):
         from ..harness import find_locks
         sc.locks = list(find_locks(s.dev, io).values())
         s.env.sched = sc
-        sc.spawn(lambda: s.op(('shell', 'reject', {'decode': False, 'transport_timeout_s': 0.5, 'read_timeout_s': 0.5})), name='refused')
+        tmo = 0.3 if params.get('late') else 0.5
+        sc.spawn(lambda: s.op(('shell', 'reject', {'decode': False, 'transport_timeout_s': tmo, 'read_timeout_s': tmo})), name='refused')
         sc.spawn(lambda: s.op(('gen-start', 'hold0', {'decode': False})), name='open0')
         results = sc.run()
         s.env.sched = None
@@ -319,7 +322,7 @@ def _parts(tier):
                         what='2 concurrent opens, bytecode-level scheduling points in id allocation', bound='preemptions <= 1'))
     out.append(Part('threads-2-lines-bounded-lock-waits', [{'start': st, 'n': 2, 'timeouts': True} for st in (0, 2**32 - 2)], run_threads, {'sched': pb, 'dev-order': 0, 'lock-timeout': 1}, split=2,
                     what='2 concurrent opens with finite transport timeouts: a lock acquire that is given a timeout may expire while the lock is held', bound='preemptions <= %d, <=1 expired lock wait' % pb))
-    out.append(Part('failed-open-overlap', [{'start': st} for st in (STARTS if tier == 'thorough' else (0, 2**32 - 2))], run_failed_overlap, {'sched': pb, 'dev-order': 0}, split=2,
+    out.append(Part('failed-open-overlap', [{'start': st, 'late': l} for st in (STARTS if tier == 'thorough' else (0, 2**32 - 2)) for l in (False, True)], run_failed_overlap, {'sched': pb, 'dev-order': 0}, split=2,
                     what='an open refused by the device fails while another open overlaps it, then a third open', bound='preemptions <= %d' % pb))
     out.append(Part('reconnect-overlap', [{'start': st, 'close': c, 'before': b} for st in (0, 2**32 - 2) for c in (True, False) for b in (0, 1)], run_reconnect_overlap, {'sched': pb - 1, 'dev-order': 0}, split=2,
                     what='an open overlapping close()+connect()+open in another thread: OPEN ids of each connection pairwise different', bound='preemptions <= %d' % (pb - 1), min_outcomes=1))
